@@ -112,8 +112,6 @@ def className : Class → String
   | .slashParent => "slash-parent"
   | .optionalParent => "optional-parent"
   | .optionalBackoffOrder => "optional-backoff-order"
-  | .optionalFallbackParams => "optional-fallback-params"
-  | .optionalFallbackOvermatch => "optional-fallback-overmatch"
   | .nestedOptionalTuple => "nested-optional-tuple"
   | .unclassified k => "unclassified-" ++ kindName k
 
